@@ -7,6 +7,7 @@
 #include <cstdlib>
 #include <cstring>
 #include <fcntl.h>
+#include <sys/time.h>
 #include <sys/wait.h>
 #include <unistd.h>
 #include <unordered_map>
@@ -73,6 +74,10 @@ void server_loop(int in, int out) {
       close(pfd[0]);
       int dn = open("/dev/null", O_WRONLY);
       if (dn >= 0) { dup2(dn, 2); dup2(dn, 1); }
+      struct itimerval it;
+      memset(&it, 0, sizeof it);
+      it.it_value.tv_sec = 60; // a twin that does not terminate is reported as a crashed twin
+      setitimer(ITIMER_VIRTUAL, &it, nullptr);
       std::string ans = run_twin(q);
       send_msg(pfd[1], ans);
       _exit(0);
